@@ -33,7 +33,7 @@ func drawPostPlan(ch *simrt.Chooser, tls13 bool) postPlan {
 	p := postPlan{}
 	kinds := []string{"empty-flood", "raw-handshake", "plain", "keyupdate-storm", "keyupdate-storm"}
 	if !tls13 {
-		kinds = kinds[:3]
+		kinds = []string{"empty-flood", "raw-handshake", "plain", "hello-request", "hello-request"}
 	}
 	p.kind = kinds[ch.Pick(len(kinds), "post-kind")]
 	switch p.kind {
@@ -42,6 +42,8 @@ func drawPostPlan(ch *simrt.Chooser, tls13 bool) postPlan {
 	case "keyupdate-storm":
 		p.n = []int{1, 2, 5, 24, 200}[ch.Pick(5, "storm-n")]
 		p.req = ch.Bool(75, "update-requested")
+	case "hello-request":
+		p.n = []int{1, 2, 5, 50}[ch.Pick(4, "hello-requests")]
 	case "raw-handshake":
 		p.msgType = []uint8{25, 8, 4, 24, 13, 0, 1, 2, 11, 15, 20, 254}[ch.Pick(12, "msg-type")]
 		p.body = make([]byte, []int{0, 1, 2, 5, 40, 300}[ch.Pick(6, "msg-len")])
@@ -79,6 +81,13 @@ func (p postPlan) misbehave(rc *refsrv.Conn) error {
 	case "keyupdate-storm":
 		for i := 0; i < p.n; i++ {
 			if err := rc.SendKeyUpdate(p.req); err != nil {
+				return err
+			}
+		}
+	case "hello-request":
+		// TLS <= 1.2: the server asks for a renegotiation, n times in a row
+		for i := 0; i < p.n; i++ {
+			if err := rc.SendRawHandshake([]byte{0, 0, 0, 0}); err != nil {
 				return err
 			}
 		}
@@ -143,14 +152,15 @@ func runC33Post(c *Ctx) {
 	cfg := refCfg()
 	cfg.MaxVersion = srvMax
 	cfg.NextProtos = of.ALPN
-	if g := firstClassicalShare(of); g != 0 {
-		cfg.CurvePreferences = []refsrv.CurveID{refsrv.CurveID(g)} // clear of the known key-share findings
-	}
 	w := c.NewWorld(simrt.Config{StepCap: 80000})
 	var link *simnet.Link
 	var calls []string
 	var refErr error
-	sp := &ConnSpec{ID: f.IDI.ID, Spec: f.Spec(), CCfg: negCfg(), Peer: PeerRef, RefCfg: cfg, Deadline: 30 * time.Second,
+	// the caller's Config may allow renegotiation (HelloGolang takes it from the Config, parrots from
+	// their renegotiation_info extension)
+	ccfg := negCfg()
+	ccfg.Renegotiation = []tls.RenegotiationSupport{tls.RenegotiateNever, tls.RenegotiateOnceAsClient, tls.RenegotiateFreelyAsClient}[ch.Pick(3, "client-reneg")]
+	sp := &ConnSpec{ID: f.IDI.ID, Spec: f.Spec(), CCfg: ccfg, Peer: PeerRef, RefCfg: cfg, Deadline: 30 * time.Second,
 		Setup: func(l *simnet.Link) { link = l; l.Frag = ch.Bool(30, "frag") }}
 	sp.ClientFn = func(o *ConnOutcome, conn net.Conn) {
 		conn.SetDeadline(time.Now().Add(30 * time.Second))
